@@ -235,7 +235,14 @@ func (m *runtimeContextManager) ReleaseMem(memAmount uint64) {
 		if memAmount <= m.usedResources.Memory {
 			m.usedResources.Memory -= memAmount
 		} else {
-			panic("Too much mem released")
+			// More is released than this context has required: the rest was
+			// required in an ancestor context (e.g. a coroutine created
+			// before a pcall and finishing inside it), so release it there.
+			rest := memAmount - m.usedResources.Memory
+			m.usedResources.Memory = 0
+			if m.parent != nil {
+				m.parent.ReleaseMem(rest)
+			}
 		}
 	}
 }
